@@ -778,6 +778,31 @@ pub fn loop_family(pool: &Pool) -> Vec<T> {
             }
         }
     }
+    // a loop over R next to a NESTED loop over the same R that mk_loop cannot flatten (and next to one it can), in
+    // both orders: the loop-merging rules of concat must not look through the nesting
+    {
+        let simple: Vec<(u32, Option<u32>)> = vec![(0, None), (1, None), (2, None), (1, Some(2)), (0, Some(1)), (2, Some(2))];
+        let nested: Vec<((u32, Option<u32>), (u32, Option<u32>))> = vec![
+            ((2, Some(2)), (1, None)), ((2, Some(2)), (0, None)), ((3, Some(3)), (1, Some(2))), ((2, Some(3)), (1, Some(2))),
+            ((2, None), (0, None)), ((2, Some(2)), (2, Some(2))), ((3, Some(4)), (2, None)),
+        ];
+        for body in bodies.iter().take(3) {
+            for &(i, j) in &simple {
+                for &((a1, b1), (c1, d1)) in &nested {
+                    let x = T::Loop(b(body), i, j);
+                    let y = T::Loop(Box::new(T::Loop(b(body), a1, b1)), c1, d1);
+                    v.push(T::Cat2(b(&x), b(&y)));
+                    v.push(T::Cat2(b(&y), b(&x)));
+                }
+            }
+            for &((a1, b1), (c1, d1)) in &nested {
+                let y = T::Loop(Box::new(T::Loop(b(body), a1, b1)), c1, d1);
+                v.push(T::Cat2(b(body), b(&y)));
+                v.push(T::Cat2(b(&y), b(body)));
+                v.push(T::Cat2(b(&y), b(&y)));
+            }
+        }
+    }
     // through the SMT-LIB-named constructors as well
     let a = T::Chr(pool.a);
     for n in 2..=4u32 {
@@ -926,6 +951,31 @@ pub fn same_language_family(pool: &Pool) -> Vec<T> {
                 }
             }
         }
+    }
+    v
+}
+
+/// Terms whose derivatives for two different classes are a FRESH term x and its complement (both created while
+/// the term is expanded for the first time): to be explored on a pristine manager.
+pub fn complementary_derivatives_family(pool: &Pool) -> Vec<T> {
+    let (a, bb, c) = (T::Chr(pool.a), T::Chr(pool.b), T::Chr(pool.c));
+    let ab = T::Rng(pool.a, pool.b);
+    let ws: Vec<T> = vec![
+        T::Cat2(Box::new(T::Loop(b(&ab), 2, Some(3))), b(&c)),
+        T::Loop(b(&ab), 2, Some(4)),
+        T::Cat2(b(&ab), Box::new(T::Cat2(b(&ab), b(&c)))),
+        T::Pow(Box::new(T::Cat2(b(&ab), b(&c))), 2),
+        T::Cat2(Box::new(T::Plus(b(&ab))), b(&c)),
+        T::Loop(Box::new(T::Cat2(b(&ab), b(&ab))), 1, None),
+    ];
+    let mut v = vec![];
+    for w in &ws {
+        let pa = T::Cat2(b(&a), b(&T::All));
+        let pb = T::Cat2(b(&bb), b(&T::All));
+        v.push(T::Alt2(Box::new(T::And2(b(&pa), b(w))), Box::new(T::And2(b(&pb), Box::new(T::Not(b(w)))))));
+        v.push(T::Alt2(Box::new(T::And2(b(&pb), Box::new(T::Not(b(w))))), Box::new(T::And2(b(&pa), b(w)))));
+        v.push(T::Alt2(Box::new(T::Diff1(b(w), b(&pb))), Box::new(T::Diff1(b(&pb), b(w)))));
+        v.push(T::Cat2(b(&c), Box::new(T::Alt2(Box::new(T::And2(b(&pa), b(w))), Box::new(T::And2(b(&pb), Box::new(T::Not(b(w)))))))));
     }
     v
 }
